@@ -26,8 +26,16 @@ def gen(rng, tier, idx):
     wp['odd_names'] = rng.random() < 0.5
     wp['name_mapper'] = rng.random() < 0.6
     wp['odd_cell_ids'] = rng.random() < 0.4
+    big = rng.random() < 0.012
+    if big:
+        # a query of several thousand cells (writers that work in blocks of rows), the last id the longest
+        wp.update(n_query=rng.choice([4200, 5000]), long_late_id=True, n_leaves=min(wp['n_leaves'], 6),
+                  n_genes=min(wp['n_genes'], 16), q_dup_rows=0.0)
     W = world.make_world(wp)
     mcfg = common.draw_mapping_cfg(rng, W)
+    if big:
+        mcfg.update(chunk_size=rng.choice([1500, 2100, 6000]), bootstrap_iteration=min(3, mcfg['bootstrap_iteration']),
+                    n_processors=rng.randint(1, 4))
     mcfg['min_markers'] = max(1, mcfg['min_markers'])
     return {'wp': wp, 'cfg': mcfg, 'sched': common.draw_sched(rng), 'kcfg': common.draw_kernel_cfg(rng)}
 
